@@ -115,6 +115,12 @@ M = [
   "    fn add(self, rhs: i16) -> i16 {\n        self.wrapping_add(rhs)", "    fn add(self, rhs: i16) -> i16 {\n        self.saturating_add(rhs)"),
  ("c12_i16_opaque_alpha_shifted", "C12", "arms-differ", "crates/jxl-render/src/image.rs",
   "                    g.buf_mut().fill(opaque_int as i16);", "                    g.buf_mut().fill((opaque_int >> 1) as i16);"),
+ ("c07_decode_counter_static", "C07", "static:", "crates/jxl-render/src/vardct/dct_common.rs",
+  "pub fn sec_half(n: usize) -> &'static [f32] {\n    let idx = n.trailing_zeros() as usize - 2;\n",
+  "pub fn sec_half(n: usize) -> &'static [f32] {\n    static CALLS: std::sync::atomic::AtomicUsize = std::sync::atomic::AtomicUsize::new(0);\n    let _ = CALLS.fetch_add(1, std::sync::atomic::Ordering::Relaxed);\n    let idx = n.trailing_zeros() as usize - 2;\n"),
+ ("c07_natural_order_unsynchronised_read", "C07", "read-before-once", "crates/jxl-vardct/src/hf_pass.rs",
+  "    // TODO: Replace this with `OnceLock` when it is available in stable.\n",
+  "    if unsafe { !LARGE_NATURAL_ORDER[idx].is_empty() } {\n        return unsafe { &LARGE_NATURAL_ORDER[idx] };\n    }\n"),
  ("c09_eof_exit_without_carry", "C09", "return-without-carry", "crates/jxl-oxide/src/lib.rs",
   "                Err(e) if e.unexpected_eof() => {\n                    self.buffer = buf.to_vec();\n                    return Ok(());\n                }\n                Err(e) => {\n                    return Err(e.into());\n                }\n            };\n            let frame_index = frame.index();",
   "                Err(e) if e.unexpected_eof() => {\n                    return Ok(());\n                }\n                Err(e) => {\n                    return Err(e.into());\n                }\n            };\n            let frame_index = frame.index();"),
